@@ -69,6 +69,51 @@ static void stream_pass(const uint8_t* in, size_t n, const struct cbor_callbacks
   }
 }
 
+/* Failing sinks: a stream that accepts nothing (full device, read-only handle). cbor_describe has no error channel; all it
+ * owes the caller is to return. Each call runs under a generous local alarm; one that does not return within it is a hang. */
+#include <setjmp.h>
+#include <signal.h>
+#include <sys/time.h>
+static sigjmp_buf g_sink_jmp;
+static volatile sig_atomic_t g_sink_armed;
+static void sink_alarm(int sig) { (void)sig; if (g_sink_armed) siglongjmp(g_sink_jmp, 1); }
+static bool g_sinks_dead; /* after a timeout the stream's lock may be held for ever: no further sink cases in this process */
+static void describe_to_failing_sinks(const cbor_item_t* it, size_t n_in) {
+  static FILE* sinks[3];
+  static const char* const names[3] = {"an unbuffered stream on a full device", "a buffered stream on a full device", "a stream opened read-only"};
+  static bool init;
+  if (g_sinks_dead) return;
+  if (!init) {
+    init = true;
+    sinks[0] = fopen("/dev/full", "w"); if (sinks[0]) setvbuf(sinks[0], NULL, _IONBF, 0);
+    sinks[1] = fopen("/dev/full", "w"); if (sinks[1]) { static char b[256]; setvbuf(sinks[1], b, _IOFBF, sizeof b); }
+    sinks[2] = fopen("/dev/null", "r");
+    struct sigaction sa;
+    memset(&sa, 0, sizeof sa);
+    sa.sa_handler = sink_alarm;
+    sigaction(SIGALRM, &sa, NULL);
+  }
+  for (int k = 0; k < 3; k++) {
+    if (!sinks[k]) { VH_COUNT("describe.failing_sink_unavailable", 1); continue; }
+    if (sigsetjmp(g_sink_jmp, 1) == 0) {
+      g_sink_armed = 1;
+      struct itimerval tv = {{0, 0}, {20, 0}};
+      setitimer(ITIMER_REAL, &tv, NULL);
+      cbor_describe((cbor_item_t*)it, sinks[k]);
+      struct itimerval off = {{0, 0}, {0, 0}};
+      setitimer(ITIMER_REAL, &off, NULL);
+      g_sink_armed = 0;
+      clearerr(sinks[k]);
+      VH_COUNT("ops.describe_to_failing_sink", 1);
+    } else {
+      g_sink_armed = 0;
+      g_sinks_dead = true;
+      vh_violation("hang", "cbor_describe of the tree decoded from a %zu-byte input did not return within 20 s when given %s (every write fails): it must return whatever the stream does", n_in, names[k]);
+      return;
+    }
+  }
+}
+
 static void c01_case(const uint8_t* src, size_t n) {
   /* the start of the caller's buffer takes every alignment 0..15 over the cases (the end always abuts the red zone) */
   void* in_base;
@@ -105,6 +150,7 @@ static void c01_case(const uint8_t* src, size_t n) {
         vh_violation("describe-changed-stream-state", "cbor_describe left the caller's %s with a different buffer (size %zu -> %zu, line-buffered %d -> %d): hidden change of process-global stdio state; later output would go through a buffer the caller did not provide",
                      out == stderr ? "stderr" : "stream", b0, __fbufsize(out), l0, __flbf(out));
       if (out == stderr) VH_COUNT("ops.describe_to_stderr", 1);
+      if ((g_describe_n & 63) == 9 && nodes <= 64 && n <= 4096) describe_to_failing_sinks(it, n);
     }
     size_t sz = cbor_serialized_size(it);
     if (sz) {
@@ -883,7 +929,14 @@ static void gianterr_case(int which) {
         vh_violation("tree-mismatch", "the tree decoded from [h'<2^32 bytes>', 1] is not a 2-array whose first member is a 2^32-byte string");
       else {
         const unsigned char* h = cbor_bytestring_handle(cbor_array_handle(it)[0]);
-        if (h[0] != 0 || h[PAY - 1] != 0 || h[PAY / 2 + 12345] != 0) vh_violation("tree-mismatch", "the 2^32-byte string's content was not copied from the input");
+        if (h >= reg && h < reg + n) vh_violation("tree-refers-to-input", "the 2^32-byte string's data pointer points into the caller's input buffer (offset %zu)", (size_t)(h - reg));
+        else {
+          if (h[0] != 0 || h[PAY - 1] != 0 || h[PAY / 2 + 12345] != 0) vh_violation("tree-mismatch", "the 2^32-byte string's content was not copied from the input");
+          /* the input may be overwritten at once */
+          reg[hdr + 77] = 0x5a; reg[hdr + PAY - 1] = 0x5a;
+          if (h[77] != 0 || h[PAY - 1] != 0) vh_violation("tree-refers-to-input", "overwriting the input buffer changed the decoded 2^32-byte string");
+          reg[hdr + 77] = 0; reg[hdr + PAY - 1] = 0;
+        }
       }
     }
   } else {
